@@ -7,7 +7,7 @@ Rec == ndJsonDeserialize(IOEnv.TRACE)
 VARIABLE l
 S(x) == ToString(x)
 Ok(e) == /\ S(e.out) # S("panic")
-         /\ JetKnown(e.name) => S(e.out) = S(IF JetOut(e.name, e.in) = JetFails THEN "jetfailed" ELSE JetOut(e.name, e.in))
+         /\ JetKnown(e.name) => S(e.out) = (IF S(JetOut(e.name, e.in)) = S(JetFails) THEN S("jetfailed") ELSE S(JetOut(e.name, e.in)))
 Init == l = 1
 Next == l <= Len(Rec) /\ (Ok(Rec[l]) = TRUE) /\ l' = l + 1
 Spec == Init /\ [][Next]_l
